@@ -249,6 +249,11 @@ def parts(tier):
             for a in ugrid:
                 for b in ugrid:
                     yield (e, ugrid[0], ugrid[-1], a, b)
+        for lo, hi, g in D.ulp_spans()[1:]:      # spans whose end / start has its ulp neighbour inside
+            for s in D.interval_sets(g, 2):
+                for a in g:
+                    for b in g:
+                        yield (D.labelled(s), lo, hi, a, b)
 
     ps.append(InputPart(
         "crop-intervals-ulp", gen_ulp, lambda c: _check_iv(c, False),
@@ -263,6 +268,11 @@ def parts(tier):
                 for a in ugrid:
                     for b in ugrid:
                         yield (p, ugrid[0], ugrid[-1], a, b)
+        for lo, hi, g in D.ulp_spans()[1:]:
+            for s in D.point_sets(g, 3):
+                for a in g:
+                    for b in g:
+                        yield (D.labelled_points(s, "xyz"), lo, hi, a, b)
 
     ps.append(InputPart("crop-points-ulp", gen_pt_ulp, lambda c: _check_pt(c, False),
                         rule="point subsets and windows on the ulp-neighbour grid (a point one ulp outside the window is outside)",
